@@ -119,6 +119,7 @@ def analyse(case: Dict[str, Any], ctx: Any, res: core.CaseResult, max_windows: i
             log = cplog.take()
             if not okc:
                 res.violations[-1].witness.update(annotation=annotation, instance=str(inst), rank=rank,
+                                                  n_logged_edges=len(log), all_logged_weights_zero=bool(log) and all(l[5] == 0 for l in log),
                                                   names=sorted({e.name for e in models[rank]} & {"cudaStreamWaitEvent", "Stream Wait Event", "cudaEventRecord"}),
                                                   n_linked_launch=sum(1 for e in view.evs if e.stream > 0 and view.link.get(e.id, -1) > 0))
                 res.counters["analysis_raised"] += 1
